@@ -51,8 +51,38 @@ func panicker(kind int, s string) interface{} {
 		return []interface{}{panStr{s}, redact.SafeString("x")}
 	case 8:
 		return ifaceStruct{panErr{s}, redact.SafeInt(1)}
+	// a contained panic FOLLOWED by further elements of the same operand:
+	// the elements after the report print as if nothing had happened
+	case 9:
+		return nilThenFields{nil, 7, s}
+	case 10:
+		return []interface{}{(*vstrer)(nil), 7, s}
+	case 11:
+		return []interface{}{panStr{s}, "y", "x"}
+	case 12:
+		return nilErrThenFields{(*derefErr)(nil), 7, s}
 	}
 	panic("panicker")
+}
+
+const nPanickers = 13
+
+// a value-receiver method reached through a nil pointer panics in the
+// runtime; fmt (and redact) print <nil>
+type nilThenFields struct {
+	A *vstrer
+	B int
+	C string
+}
+
+type derefErr struct{ s string }
+
+func (e *derefErr) Error() string { return e.s }
+
+type nilErrThenFields struct {
+	E error
+	B int
+	C string
 }
 
 var c11Dirs = []string{"%v", "%+v", "%#v", "%s", "%d", "%x", "%q", "%8v", "%-8s|"}
@@ -89,6 +119,10 @@ func H_c11p(p []int) {
 		f0 := catchFmt(func() string { return fmt.Sprintf(format, panicker(kind, ""), "t‹", blankI(0)) })
 		vAssert(!f.panicked, "C11/fmt-contains-too")
 		vAssert(bytesEq(strip(out), esc([]byte(f.out))), "C11/text-as-fmt")
+		if kind == 11 {
+			// the unsafe siblings are enveloped too: blank them on the fmt side
+			f0 = catchFmt(func() string { return fmt.Sprintf(format, []interface{}{panStr{""}, blankS(""), blankS("")}, "t‹", blankI(0)) })
+		}
 		if kind == 6 {
 			// partial output through the fmt.State is unsafe, the report after it is not
 			f0 = catchFmt(func() string { return fmt.Sprintf(format, panFmt{""}, "t‹", blankI(0)) })
